@@ -105,6 +105,20 @@ CLAIMED = {
         technique="TLA+ exact-arithmetic spec + TLC lattice enumeration, replay into all solvers",
         ref="5/C20",
     ),
+    "C09": dict(
+        level="model_checking",
+        text="ForceLawAssembly.tla models System.assemble as phase 1 (t0, index sets, q0) plus assembler callbacks in list order with what "
+             "each callback reads and provides; TLC enumerates every force-law class (both forms) x {TwoPointInteraction, Revolute} x "
+             "registration order x angle0 x body kind (rigid body, multi-element rod cross-section) x session history (fresh, after an "
+             "in-place restart of another system) and checks CallbackPreconditionsMet / DefaultIsStressFree; the as-found tree is rejected. "
+             "Every configuration is built from the real classes on several poses, assembled, and force, energy, compliance residual and "
+             "l_ref are compared with the spec's terminal state.",
+        note="Finite configuration space enumerated exhaustively on both sides (120 configurations x 3-12 poses). Only supported "
+             "configurations can raise a violation (a Revolute joint that is not part of the system is not supported). Stress-free is judged "
+             "at u0 = 0.",
+        technique="TLA+ spec + TLC exhaustive configuration enumeration, replay with the real classes",
+        ref="5/C09",
+    ),
 }
 
 NOT_APPLICABLE = {
